@@ -171,6 +171,26 @@ def check_program(case):
                 out.viol('binding-raised', '%s: %s: %s' % (clab, type(e).__name__, e), exc=type(e).__name__, va=sig['va'], vk=sig['vk'])
             if kw and args:
                 out.nontrivial(json.dumps([args, sorted(kw)]))
+            # ---- the VALUES are the caller's: None / 0 / '' / () passed for a parameter (with or without a default) is that value, not 'nothing passed'
+            slots = [('pos', i) for i in range(len(args))] + [('kw', n) for n in kw]
+            for where, key in slots:
+                for v in (None, 0, '', ()):
+                    a2 = tuple(v if (where == 'pos' and i == key) else x for i, x in enumerate(args))
+                    k2 = {n: (v if (where == 'kw' and n == key) else x) for n, x in kw.items()}
+                    clab2 = '%s called with args=%r kwargs=%r' % (label, a2, k2)
+                    try:
+                        want2 = inspect.getcallargs(f, *a2, **k2)
+                        got2 = getcallargs(f, *a2, **k2)
+                        out.call()
+                        if got2 != want2:
+                            out.viol('getcallargs-differs', '%s: getcallargs = %r, inspect.getcallargs = %r' % (clab2, got2, want2), va=sig['va'], vk=sig['vk'], value=repr(v))
+                            continue
+                        r = call_with_callargs(f, got2)
+                        out.call()
+                        if r != f(*a2, **k2) or repr(r) != repr(f(*a2, **k2)):
+                            out.viol('call_with_callargs-differs', '%s: call_with_callargs(f, callargs) = %r, f(...) = %r' % (clab2, r, f(*a2, **k2)), va=sig['va'], vk=sig['vk'], value=repr(v))
+                    except Exception as e:
+                        out.viol('binding-raised', '%s: %s: %s' % (clab2, type(e).__name__, e), exc=type(e).__name__, va=sig['va'], vk=sig['vk'], value=repr(v))
         out.cls('binding')
         return out
 
